@@ -5,6 +5,7 @@ package atom
 import (
 	"fmt"
 	"sort"
+	"sync"
 	"testing"
 
 	"golang.org/x/net/internal/verifrt"
@@ -33,7 +34,8 @@ func TestVerif_C42(t *testing.T) {
 	r.SetRule("defined atoms enumerated three ways (repo name list, every non-zero hash-table entry, every exported constant). " +
 		"Non-atoms: all byte strings of length 1-2, all [a-z0-9-] strings of length 3, every substring of atomText up to maxAtomLen+1, " +
 		"every atom name under single edits (delete/substitute/insert/case/truncate/extend/swap/concatenate), names with the first or last two bytes " +
-		"replaced by all pairs from a 64 (quick) or 128 (thorough) byte alphabet, PRNG strings over several alphabets, lengths up to 40. " +
+		"replaced by all pairs from a 64 (quick) or 128 (thorough) byte alphabet, PRNG strings over several alphabets, lengths up to 40, " +
+		"constructed non-atoms with the full 32-bit hash and length of an atom name, looked up alone and right after / before that name. " +
 		"non-trivial = the string is an atom name, or it is a non-atom whose hash selects an occupied table slot holding an atom of the same length " +
 		"(so only the final string compare can reject it); distinct by string")
 	r.Assume("the set of atom names is the repository's generated list testAtomList (html/atom/table_test.go), which must agree with the 369 constant/name pairs frozen in the harness")
@@ -294,6 +296,106 @@ func TestVerif_C42(t *testing.T) {
 		}
 	})
 
+	// ---- strings with the FULL 32-bit hash (and length) of an atom name -------------------------
+	// FNV's step is invertible, so such strings can be constructed (meet in the middle: all
+	// two-byte endings walked backwards from the name's hash, PRNG beginnings walked forwards).
+	// They reach both table slots of the name they collide with, and any shortcut that trusts
+	// the hash - a cache of the last hit, say - answers them with that atom. Each is looked up
+	// on its own, right after a lookup of the name it collides with, and right before one; the
+	// sequences run one after the other in a single goroutine, because what is being checked is
+	// that Lookup's answer does not depend on what was looked up before.
+	type collision struct{ name, other string }
+	var (
+		collMu sync.Mutex
+		colls  []collision
+	)
+	var fnvInv uint32 = 16777619
+	for i := 0; i < 5; i++ {
+		fnvInv *= 2 - 16777619*fnvInv
+	}
+	perName := r.N(2, 8)
+	// (the search is not a case of its own: it also runs when the history case is replayed)
+	var searchWG sync.WaitGroup
+	sem := make(chan struct{}, 16)
+	var built, broken int64
+	for idx, name := range names {
+		if len(name) < 4 {
+			continue
+		}
+		searchWG.Add(1)
+		sem <- struct{}{}
+		go func() {
+			defer func() { <-sem; searchWG.Done() }()
+			rng := r.Rand("full-hash-collisions-search", idx)
+			n := len(name)
+			target := verifFNV(hash0, []byte(name))
+			back := make(map[uint32][2]byte, 1<<16)
+			for b1 := 0; b1 < 256; b1++ {
+				h1 := (target * fnvInv) ^ uint32(b1) // state before the last byte b1
+				for b0 := 0; b0 < 256; b0++ {
+					back[(h1*fnvInv)^uint32(b0)] = [2]byte{byte(b0), byte(b1)}
+				}
+			}
+			pre := make([]byte, n-2)
+			found := 0
+			for try := 0; try < 1<<21 && found < perName; try++ {
+				for j := range pre {
+					if try%2 == 0 {
+						pre[j] = byte(rng.Uint32())
+					} else {
+						pre[j] = byte(' ' + rng.IntN(95))
+					}
+				}
+				if e, ok := back[verifFNV(hash0, pre)]; ok {
+					y := string(pre) + string(e[:])
+					if y == name || dict[y] {
+						continue
+					}
+					collMu.Lock()
+					if verifFNV(hash0, []byte(y)) != target {
+						broken++
+					} else {
+						if found == 0 {
+							built++
+						}
+						colls = append(colls, collision{name, y})
+					}
+					collMu.Unlock()
+					found++
+				}
+			}
+		}()
+	}
+	searchWG.Wait()
+	r.Event("names_with_a_full_hash_collision_constructed", built)
+	r.Cases("full-hash-collisions-history", 1, func(c *verifrt.Case) {
+		if broken > 0 {
+			c.Violation("harness-collision-construction", "%d constructed strings do not have the hash of the name they were built for", broken)
+		}
+		sort.Slice(colls, func(i, j int) bool {
+			if colls[i].name != colls[j].name {
+				return colls[i].name < colls[j].name
+			}
+			return colls[i].other < colls[j].other
+		})
+		for _, k := range colls {
+			x, y := []byte(k.name), []byte(k.other)
+			check(c, y, "full-hash-collision")
+			want := Lookup(x)
+			if want == 0 || want.String() != k.name {
+				c.Violation("lookup-misses-atom", "Lookup(%q) = %#x (%q)", x, uint32(want), want.String())
+			}
+			if got := Lookup(y); got != 0 {
+				c.Describe(map[string]any{"sequence": []string{fmt.Sprintf("Lookup(%q)", x), fmt.Sprintf("Lookup(%q)", y)}})
+				c.Violation("lookup-nonzero-for-non-atom-after-a-hit", "Lookup(%q) right after Lookup(%q) = %#x (%q); %q has the same length and the same 32-bit hash %#x as the atom name but is not one (on its own it is answered with 0)", y, x, uint32(got), got.String(), y, verifFNV(hash0, x))
+			}
+			if got := Lookup(x); got != want {
+				c.Violation("lookup-depends-on-history", "Lookup(%q) = %#x after a lookup of the colliding %q, %#x before", x, uint32(got), y, uint32(want))
+			}
+			r.Event("full_hash_collisions_looked_up_after_a_hit", 1)
+		}
+	})
+
 	// ---- PRNG strings -----------------------------------------------------------------------------
 	total := r.N(1000000, 30000000)
 	const chunks = 64
@@ -345,4 +447,6 @@ func TestVerif_C42(t *testing.T) {
 	r.Require("constants_checked", 300)
 	r.Require("nonatoms_decided_by_string_compare", 10000)
 	r.Require("lookups_of_atom_names", 1000)
+	r.Require("names_with_a_full_hash_collision_constructed", 200)
+	r.Require("full_hash_collisions_looked_up_after_a_hit", 400)
 }
